@@ -84,7 +84,7 @@ def claimants(types, line):
 def check_dispatch(rec, log, logs, case) -> bool:
     """conservation / exactly-once over the dispatch records of one parse"""
     ok = True
-    track_warn = [m for (lg, lvl, m) in logs if lg == "chartparse.track"]
+    track_warn = [m for (lg, lvl, m) in logs if lg == "chartparse.track" and lvl in ("WARNING", "ERROR", "CRITICAL")]
     total_unclaimed = 0
     for r in log:
         if r["probe"] != "dispatch":
